@@ -42,10 +42,16 @@ type zzWriter struct {
 	g       *zzG
 	msgs    []Message
 	outcome int // of the last write: 0 ok, 1 broken, 2 rejected, 3 caller's ctx cancelled during the write
+	refusedDone int // messages not sent because they were offered with a context that was already done
 }
 
 func (w *zzWriter) Write(ctx context.Context, msg Message) error {
 	g := w.g
+	if ctx.Err() != nil {
+		// like the SDK's stream transports: a message offered with a context that is already done is not sent
+		w.refusedDone++
+		return ctx.Err()
+	}
 	w.msgs = append(w.msgs, msg)
 	if req, ok := msg.(*Request); ok && req.IsCall() {
 		// register-before-write: the call is already tracked when its request reaches the transport
@@ -64,8 +70,17 @@ func (w *zzWriter) Write(ctx context.Context, msg Message) error {
 		return fmt.Errorf("transient: %w", ErrRejected)
 	}
 	if g.cancelCallerCtx != nil && ctx.Err() == nil {
-		g.cancelCallerCtx()
+		// the caller's context ends while the transport is writing: by cancellation or because its deadline passes;
+		// the transport reports the context's error or whatever I/O error the interruption produced
+		if vBool("endsByDeadline") {
+			vCtxCancel(g.callerCtx, context.DeadlineExceeded)
+		} else {
+			g.cancelCallerCtx()
+		}
 		if ctx.Err() != nil {
+			if vBool("transportReportsItsOwnError") {
+				return zzErrWrite
+			}
 			return ctx.Err()
 		}
 	}
@@ -96,6 +111,7 @@ type zzG struct {
 	q3       *incomingRequest
 
 	cancelCallerCtx func()
+	callerCtx       context.Context
 
 	// which structural dimensions of the shared state this thread's code can observe (the others are fixed:
 	// empty queue, allocated maps)
@@ -456,6 +472,7 @@ func zzConnCall() {
 	g.install()
 	ctx, cancel := context.WithCancel(context.Background())
 	g.cancelCallerCtx = cancel
+	g.callerCtx = ctx
 	ac := g.c.Call(ctx, "m", nil)
 	vAssert(ac != nil, "C01.call-returns-handle")
 	if !g.mineReg {
@@ -487,6 +504,7 @@ func zzConnWrite() {
 	g := zzFresh()
 	ctx, cancel := context.WithCancel(context.Background())
 	g.cancelCallerCtx = cancel
+	g.callerCtx = ctx
 	var msg Message
 	if vChoice("msgKind", 2) == 0 {
 		msg = &Response{ID: Int64ID(5), Result: []byte("r")}
@@ -681,6 +699,9 @@ func zzConnProcessResult() {
 		}
 	}
 	g.install()
+	if vBool("peerCancelledTheRequest") {
+		g.myReq.cancel(errors.New("cancelled by peer")) // notifications/cancelled arrived while the handler ran
+	}
 	var result any
 	var err error
 	kind := vChoice("handlerOutcome", 6)
@@ -721,6 +742,7 @@ func zzConnProcessResult() {
 			}
 		}
 	}
+	vAssert(g.w.refusedDone == 0, "C02.response-not-tied-to-the-request-context")
 	if isCall {
 		vAssert(responses == 1 || (responses == 0 && writeAdmissionRefused), "C02.call-answered-exactly-once")
 		vReach("call")
@@ -782,6 +804,7 @@ func zzConnNotify() {
 	g.install()
 	ctx, cancel := context.WithCancel(context.Background())
 	g.cancelCallerCtx = cancel
+	g.callerCtx = ctx
 	err := g.c.Notify(ctx, "notifications/cancelled", nil)
 	vAssert(g.myNotif == 0, "C05.notification-token-returned")
 	if len(g.w.msgs) == 0 {
